@@ -57,6 +57,7 @@ class Replayer:
         kw["limit_sigma"] = rec["limit"] == "T"
         mh = self.sess.model(rec["kind"], gamma=rec["gamma"], **kw)
         mh.id = mid
+        mh.constructed = dict(mh.constructed, id=mid)
         self.models[mid] = mh
         return mh
 
